@@ -38,7 +38,7 @@ def make_plan(tape, prop):
     names = [d["name"] for d in schema["defs"]]
     for d in schema["defs"]:
         if d["k"] == "enum":
-            names += [n for n, _ in d["members"]]
+            names += [m[0] for m in d["members"]]
     cs = []
     ncorr = tape.weighted([3, 8, 3, 1])      # 0..3 corruptions
     for _ in range(ncorr):
